@@ -15,6 +15,7 @@
  */
 #pragma once
 
+#include <unifex/detail/verif_hooks.hpp>
 #include <unifex/config.hpp>
 #if !UNIFEX_NO_LIBURING
 
@@ -1018,6 +1019,7 @@ class io_uring_context::schedule_at_sender {
     }
 
     void request_stop_remote() noexcept {
+      UNIFEX_VERIF_POINT(446);
       auto oldState = this->state_.fetch_add(
           schedule_at_operation::cancel_pending_flag,
           std::memory_order_acq_rel);
